@@ -319,6 +319,19 @@ def r4(ctx):
         isinstance(c.func, ast.Attribute) and c.func.attr == "wait" and "events_map" in unparse(c.func.value) for c in n.calls())]
     ctx.ob("R4", "undeploy waits for a pending deployment before undeploying", bool(wait) and g.dominates(wait[0].id, und[0].id),
            func=f, node=f.node, instance="undeploy:wait")
+    # a deployment is withdrawn from the dependency sets of the others only once it has really been undeployed
+    others = [n for n in g.nodes.values() if any(
+        isinstance(c.func, ast.Attribute) and c.func.attr in ("discard", "remove") and unparse(c.args[0]) == "deployment_name"
+        and "dependency_graph[deployment_name]" not in unparse(c.func.value) for c in n.calls() if c.args)]
+    ctx.require(bool(others), "C26.R4: removal of the deployment from the other dependency sets not found")
+    for o in others:
+        okp = any(g.dominates(t.id, o.id) and o.id in g.reach(g.real_succ(t.id, "t"), include_src=True)
+                  and o.id not in g.reach([b for b, k in g.succ[t.id] if k == "f"], avoid=[t.id], include_src=True) for t in guards) \
+            and g.dominates(und[0].id, o.id)
+        ctx.ob("R4", "a deployment leaves the dependency sets of the others only after it was undeployed", okp, func=f, node=o.ast,
+               instance="undeploy:withdraw-after-undeploy",
+               message="a deployment that is kept alive (it still has dependants) is nevertheless removed from the dependants of the deployments it wraps: "
+                       "those are undeployed while it is still live")
     f = p.func(f"{MGR}.undeploy_all")
     loops = [n for n in f.body_nodes() if isinstance(n, ast.For)]
     ok = bool(loops) and all(
@@ -367,7 +380,7 @@ def r5(ctx):
 
 
 RULES = [("R1", r1), ("R2", r2), ("R3", r3), ("R4", r4), ("R5", r5)]
-FLOORS = {"R1": 18, "R2": 5, "R3": 3, "R4": 4, "R5": 3}
+FLOORS = {"R1": 18, "R2": 5, "R3": 3, "R4": 5, "R5": 3}
 
 _IDIOM = "if not self.deploying:\n            self.deploying = True\n            await self.deploy(self.external)"
 
@@ -399,6 +412,9 @@ VARIANTS = [
     V("future.deploy: handler swallows", FFILE, f"{FUT}.deploy", "self.deploy_event.set()\n        raise", "self.deploy_event.set()", "R3"),
     V("_safe wait does not raise", FFILE, f"{FUT}._safe_deploy_event_wait", "if self._connector is None:", "if False:", "R3"),
     V("undeploy guard removed", MFILE, f"{MGR}.undeploy", "if len(self.dependency_graph[deployment_name]) == 0:", "if True:", "R4", control=True),
+    V("withdraw from other dependency sets even when kept alive (S16 revert)", MFILE, f"{MGR}.undeploy",
+      "            for name, deps in list(((k, v) for k, v in self.dependency_graph.items() if k != deployment_name)):\n                deps.discard(deployment_name)\n                if len(deps) == 0:\n                    await self.undeploy(name)",
+      "        for name, deps in list(((k, v) for k, v in self.dependency_graph.items() if k != deployment_name)):\n            deps.discard(deployment_name)\n            if len(deps) == 0:\n                await self.undeploy(name)", "R4"),
     V("delete after await", MFILE, f"{MGR}.undeploy", "del self.deployments_map[deployment_name]\n            ", "", "R4"),
     V("undeploy_all iterates live map", MFILE, f"{MGR}.undeploy_all", "dict(self.deployments_map)", "self.deployments_map", "R4"),
     V("wait only when not yet registered (S15 revert)", MFILE, f"{MGR}._inner_deploy",
